@@ -255,7 +255,6 @@ func (c *pathParser) addSeg(segString []byte) error {
 			c.close()
 			c.currentX = c.pathStartX
 			c.currentY = c.pathStartY
-			c.inPath = false
 		}
 	case 'm':
 		rel = true
